@@ -128,6 +128,48 @@ def run(ctx):
     tie = chain_root_tie(ctx, S, sdu, child)
     ctx.ob('C12.r4', S.name, 'child chain root is compared with the proven parent before the fast path', tie, at=child[0][1],
            detail=None if tie else 'nothing binds the child\'s parent_chain_root (hence its total difficulty) to the proven parent header')
+    # r5 (F43): the stored total difficulty of a proof is the one the last header's parent chain root commits plus its own
+    # difficulty; the chain root is verified as an MMR root only, the difficulties of the proof items are the peer's.  It has
+    # to be accumulated from the continuous headers before the last header (each chain root commits the total difficulty of the
+    # parent header), for every response, with or without samples.
+    E = ctx.body('SendLastStateProofProcess::execute')
+    commit = ctx.sites(E, 'LightClientProtocol::commit_prove_state', 1)
+    CT = 'LightClientProtocol::check_total_difficulty_for_continuous_headers'
+    tds = P.call_sites(E, CT)
+    ctx.ob('C12.r5', E.name, 'the total difficulties of the continuous headers are chained (check_total_difficulty_for_continuous_headers)', len(tds) >= 1, calls=len(tds),
+           failing_history=None if tds else 'proved state at block 20 (last_n = 5); SendLastState(23\') where 23\' commits a chain root over the real leaves 0..=22 with the '
+           'difficulty of an undisclosed leaf raised by 2^200; the proof without samples [20..22] + real MMR proof is accepted and the inflated total difficulty is stored')
+    if tds:
+        ctx.guard('C12.r5', E, CT, 'Ok', commit)
+        edu = DefUse(E)
+        with_last = False
+        for bid, t in tds:
+            org = edu.origins(t.args[1], stop_at_calls=False)
+            if any(o[0] == 'call' and o[1].endswith('Iterator>::chain') for o in org) and any(
+                    o[0] == 'call' and (o[1].endswith('SendLastStateProofReader::last_header') or o[1].endswith('last_header')) for o in org):
+                with_last = True
+        ctx.ob('C12.r5', E.name, 'the chained section ends with the last header itself (last-N headers ++ last header)', with_last)
+    if not P.has(CT):
+        ctx.ob('C12.r5', CT, 'the chaining check exists', False)
+        from rules import census_fns
+        census_fns.run(ctx, 'C12')
+        return
+    H = ctx.body(CT)
+    hdu = DefUse(H)
+    tied = False
+    for bid, k, t in P.call_keys(H):
+        if k.endswith('PartialEq>::ne') or k.endswith('PartialEq>::eq'):
+            o = [hdu.origins(a, stop_at_calls=False) for a in t.args]
+            cs = [{x[1] for x in oo if x[0] == 'call'} for oo in o]
+            for i in (0, 1):
+                if any(c.endswith('parent_chain_root') for c in cs[i]) and any(c.endswith('checked_total_difficulty') for c in cs[1 - i]):
+                    acc = 'false' if k.endswith('::ne') else 'true'
+                    from engine.flow import GuardFlow
+                    gf = GuardFlow(H, P.cfg(H))
+                    sinks = ctx.success_sinks(H)
+                    # the loop may run zero times (fewer than two headers): the comparison is a per-pair guard
+                    tied = bool(sinks) and all(gf.check_sink(bid, acc, sb, False)[0] for sb, _, _ in sinks)
+    ctx.ob('C12.r5', H.name, 'Ok only if every chain root commits the (checked) total difficulty of the header before it', tied)
     # reviewed reference of the checker functions' decision structure (engine/census.py)
     from rules import census_fns
     census_fns.run(ctx, 'C12')
